@@ -45,6 +45,19 @@ Definition read_param (p : param) (v : Q) : outcome :=
   | _ => Unchanged  (* bool / str / list parameters are outside C07 *)
   end.
 
+(* listParameter branch (names without a blank: 'Gradients', 'Thicknesses').  sValue is the text of the FIRST
+   element only: New_val = float(sValue) is range-checked; out of range -> a warning is printed and the current list
+   is kept (no exception: lists are the one place where the pinned reader keeps the default); otherwise the WHOLE
+   comma-separated list of the raw line is stored - the other elements are never range-checked. *)
+Inductive loutcome : Type :=
+| LStore (l : list Q)     (* ParamToModify.value = [first; rest...] *)
+| LKeep.                  (* "Warning: Parameter given (..) for <name> outside of valid range." - value untouched *)
+
+Definition read_list (p : param) (first : Q) (rest : list Q) : loutcome :=
+  if Qltb first (p_min p) || Qltb (p_max p) first then LKeep else LStore (first :: rest).
+
+Definition lstored (o : loutcome) : bool := match o with LStore _ => true | LKeep => false end.
+
 Definition accepted (o : outcome) : bool := match o with Accept _ => true | _ => false end.
 
 (* Provided flag after the call (False before it): floats set it already on "== DefaultValue" *)
